@@ -244,6 +244,10 @@ func (P *Program) SetReplacements(extra map[string]string) error {
 				P.Repl[callee] = nil
 				continue
 			}
+			if repl == "-" { // harness-level override: execute the real function
+				delete(P.Repl, callee)
+				continue
+			}
 			f, err := P.findFunc(repl)
 			if err != nil {
 				return fmt.Errorf("replace %s: %v", callee, err)
